@@ -4,9 +4,14 @@ package main
 // own story (events are attributed through a context value).
 
 import (
+	"errors"
 	"fmt"
 	"strings"
 	"time"
+
+	"github.com/failsafe-go/failsafe-go/bulkhead"
+	"github.com/failsafe-go/failsafe-go/circuitbreaker"
+	"github.com/failsafe-go/failsafe-go/ratelimiter"
 )
 
 func c16ConcurrentScenarios(tier string) []*Scenario {
@@ -88,6 +93,118 @@ func c16ConcurrentScenarios(tier string) []*Scenario {
 	return out
 }
 
+// c16StoryScenarios: events shared by several threads, or racing with a cancellation, still tell what
+// happened: breaker state changes form a connected path that ends in the breaker's state, with the
+// specific listener matching the generic one; OnFull / OnRateLimitExceeded fire exactly for the
+// executions that were refused.
+func c16StoryScenarios(tier string) []*Scenario {
+	bound := 2
+	if tier == "thorough" {
+		bound = 3
+	}
+	var out []*Scenario
+	breakerPath := func(env *Env) string {
+		for bi, s := range env.Stack {
+			if s.Kind != KBreaker {
+				continue
+			}
+			cur := circuitbreaker.ClosedState
+			var generic, specific []string
+			for _, e := range env.Events {
+				if e.Policy != bi {
+					continue
+				}
+				switch e.Name {
+				case "changed":
+					if e.Old != cur {
+						return fmt.Sprintf("breaker %d: OnStateChanged %v->%v follows a change that ended in %v: not a connected path from the initial state", bi, e.Old, e.New, cur)
+					}
+					cur = e.New
+					generic = append(generic, fmt.Sprint(e.New))
+				case "open", "close", "halfopen":
+					want := map[string]circuitbreaker.State{"open": circuitbreaker.OpenState, "close": circuitbreaker.ClosedState, "halfopen": circuitbreaker.HalfOpenState}[e.Name]
+					if e.New != want {
+						return fmt.Sprintf("breaker %d: listener %s called for a change to %v", bi, e.Name, e.New)
+					}
+					specific = append(specific, fmt.Sprint(e.New))
+				}
+			}
+			if strings.Join(generic, ",") != strings.Join(specific, ",") {
+				return fmt.Sprintf("breaker %d: generic listener saw [%s], the specific listeners [%s]", bi, strings.Join(generic, ","), strings.Join(specific, ","))
+			}
+			if got := env.Breakers[bi].State(); got != cur {
+				return fmt.Sprintf("breaker %d is %v, its last state-change event ended in %v", bi, got, cur)
+			}
+		}
+		return ""
+	}
+	refusals := func(env *Env) string {
+		for i, s := range env.Stack {
+			var ev string
+			var refusal error
+			switch s.Kind {
+			case KBulkhead:
+				ev, refusal = "full", bulkhead.ErrFull
+			case KLimiter:
+				ev, refusal = "ratelimited", ratelimiter.ErrExceeded
+			default:
+				continue
+			}
+			fired, refused := 0, 0
+			for _, e := range env.Events {
+				if e.Policy == i && e.Name == ev {
+					fired++
+				}
+			}
+			for _, x := range env.Exes {
+				if errors.Is(x.ResE, refusal) {
+					refused++
+				}
+			}
+			if i == 0 && fired != refused {
+				return fmt.Sprintf("%s listener of policy %d fired %d times, %d executions were refused with %v", ev, i, fired, refused, refusal)
+			}
+		}
+		return ""
+	}
+	add := func(name string, stack []Spec, exes []ExeSpec, check func(*Env) string, extra ...func(*Env)) {
+		out = append(out, &Scenario{
+			Name:  fmt.Sprintf("C16/story/%s [%s] %s", name, stackStr(stack), exesStr(exes)),
+			Bound: bound, Reduce: true,
+			Body: multiBody(stack, exes, MultiOpts{Reduce: true, Grace: 100, Extra: extra, Final: check}),
+		})
+	}
+	fail := []Out{{Err: E1}}
+	ok := []Out{{V: 1}}
+	cb := Spec{Kind: KBreaker, FT: 1, FC: 1, BDelay: 10}
+	manual := func(env *Env) { env.Breakers[0].HalfOpen(); env.Breakers[0].Close() }
+	add("breaker-open-vs-manual", []Spec{cb}, []ExeSpec{{Script: fail}}, breakerPath, manual)
+	add("breaker-two-failures", []Spec{cb}, []ExeSpec{{Script: fail}, {Script: fail}}, breakerPath)
+	add("breaker-trial", []Spec{cb}, []ExeSpec{{Script: fail}, {Script: ok, StartAt: 10}, {Script: fail, StartAt: 10}}, breakerPath)
+	add("breaker-open-vs-manual-open", []Spec{{Kind: KBreaker, FT: 2, FC: 2, BDelay: 10}}, []ExeSpec{{Script: fail}, {Script: fail}}, breakerPath, func(env *Env) { env.Breakers[0].Open(); env.Breakers[0].Close() })
+	// refusal listeners against cancellations that land while an execution waits for a permit
+	bw := Spec{Kind: KBulkhead, Conc: 1, Held: 1, BWait: 100}
+	lw := Spec{Kind: KLimiter, Smooth: true, Interval: 100, LWait: 1000, Used: 1}
+	for _, src := range []string{"cancel", "deadline"} {
+		add("bulkhead-wait-cancelled", []Spec{bw}, []ExeSpec{{Script: ok, Ctx: src, CancelAt: 30}, {Script: ok}}, refusals)
+		add("limiter-wait-cancelled", []Spec{lw}, []ExeSpec{{Script: ok, Ctx: src, CancelAt: 30}, {Script: ok, StartAt: 5}}, refusals)
+	}
+	add("bulkhead-wait-async-cancelled", []Spec{bw}, []ExeSpec{{Script: ok, Async: true, CancelAsync: true, CancelAt: 30}}, refusals)
+	add("bulkhead-wait-timeout", []Spec{{Kind: KTimeout, Limit: 30}, bw}, []ExeSpec{{Script: ok}}, func(env *Env) string {
+		n := 0
+		for _, e := range env.Events {
+			if e.Policy == 1 && e.Name == "full" {
+				n++
+			}
+		}
+		if n != 0 {
+			return fmt.Sprintf("OnFull fired %d times for a wait that was ended by the enclosing timeout", n)
+		}
+		return ""
+	})
+	return out
+}
+
 func c16ConcurrentUnits(tier string) []Unit {
 	var us []Unit
 	for _, sc := range c16ConcurrentScenarios(tier) {
@@ -114,6 +231,7 @@ func init() {
 	scenarioSets["C16"] = func(tier string) []*Scenario {
 		scs := append(c16ConcurrentScenarios(tier), hedgeTimingScenarios("C16/hedge-timing", tier, "events")...)
 		scs = append(scs, c16AsyncScenarios(tier)...)
+		scs = append(scs, c16StoryScenarios(tier)...)
 		return append(scs, programScenarios("C16", pxPrograms(tier, "layers,events"), 1)...)
 	}
 }
